@@ -195,7 +195,7 @@ CLAIMED = {
         "condition quietb a fault-free reconcile succeeds, leaves the API state unchanged and logs list/get calls only. "
         "From hypotheses on the initial world only when the revision list is within revisionHistoryLimit (C02_full_model_converges_closed, RoundRevs.v), and from "
         "the round after convergence on every world satisfies quietb, i.e. no write at all (C02_full_model_converges_and_goes_quiet: the whole property over the "
-        "full model, within mu+1 fair rounds of a regular initial world). "
+        "full model, within mu+1 fair rounds of a regular initial world; the stored status then says replicas = readyReplicas = spec.replicas, C02_full_model_stored_status). "
         "PARTIAL: the phase before regularity (chaotic prefix: faults, lagging caches, adoption, creation of the update revision, unsettled pods), revision lists "
         "longer than the limit, and (as a cross-check of the hypotheses on observed worlds) that a fair history ends in a quietb world, are evaluated inside coqc (round_check "
         "on worlds observed at round boundaries of histories and on synthetic settled worlds; quietb on the final world of every history), not proved. Both are "
